@@ -3,11 +3,15 @@
 
 use crate::rt::{Ctx, Json};
 
+pub mod c02;
+pub mod c03;
 pub mod c16;
 
 macro_rules! dispatch {
     ($ctx:expr, $f:ident $(, $arg:expr)*) => {
         match $ctx.property.as_str() {
+            "C02" => c02::$f($ctx $(, $arg)*),
+            "C03" => c03::$f($ctx $(, $arg)*),
             "C16" => c16::$f($ctx $(, $arg)*),
             other => {
                 let msg = format!("no monitor for property {}", other);
